@@ -10,9 +10,9 @@ ID = 'C12'
 CHUNK = 1
 LEVEL = 'model_checking'
 RECHECK = 4   # cases are whole schedule explorations: fewer of them are re-executed for the determinism check
-RULE = ('the real AsyncRecordOnlyTapeCassette / AsyncRecording with Lock / Event / Thread replaced by scheduler-owned ones; workloads W1..W7 '
+RULE = ('the real AsyncRecordOnlyTapeCassette / AsyncRecording with Lock / Event / Thread replaced by scheduler-owned ones; workloads W1..W11 '
         '(1 producer; 1 producer two recordings; 2 producers a recording each; 2 producers writing one recording saved by the closer; 3 '
-        'producers one write each; nothing written; producer writing while another saves) x every placement of ONE failing wrapped '
+        'producers one write each; nothing written; producer writing while another saves; W8 a recording aborted between two saved ones; W9 a burst of 1100 writes pending at close (default schedules only); W10/W11 close, close again, start again, record again) x every placement of ONE failing wrapped '
         'operation (and none) x flush-timer budget 0..2 x ALL interleavings of producers, closer and flusher up to the preemption bound '
         '(line granularity in the module, opcode granularity in every function that touches the operation buffer or its lock; storage '
         'calls are scheduling points). states = distinct (journal, final store) outcomes; transitions = scheduling points executed.')
@@ -62,7 +62,15 @@ WORKLOADS = {
     'W5': {'recs': 1, 'producers': [[('set', 0, 'a')], [('set', 0, 'b')], [('set', 0, 'c')]], 'closer': [('save', 0)]},
     'W6': {'recs': 0, 'producers': [], 'closer': []},
     'W7': {'recs': 2, 'producers': [[('set', 0, 'a'), ('set', 0, 'b'), ('save', 0)], [('set', 1, 'c')]], 'closer': [('meta', 1, 'm'), ('save', 1)]},
+    # a recording that is aborted (what the recorder does on discard / sampling / failed interception) between two that are saved
+    'W8': {'recs': 3, 'producers': [[('set', 0, 'a'), ('save', 0), ('set', 1, 'b'), ('abort', 1), ('set', 2, 'c'), ('save', 2)]], 'closer': []},
+    # a burst: more operations buffered at close() than any plausible batch size
+    'W9': {'recs': 1, 'producers': [[('set', 0, 'k%04d' % i) for i in range(1100)] + [('save', 0)]], 'closer': [], 'max_steps': 400000},
+    # close twice, then try to start again: either the restart is refused, or what is accepted afterwards is stored like anything else
+    'W10': {'recs': 2, 'producers': [], 'closer': [('set', 0, 'a'), ('save', 0), ('close',), ('close',), ('start',), ('set', 1, 'b'), ('meta', 1, 'm'), ('save', 1)]},
+    'W11': {'recs': 2, 'producers': [[('set', 0, 'a'), ('save', 0)]], 'closer': [('close',), ('start',), ('set', 1, 'b'), ('save', 1), ('close',), ('close',)]},
 }
+CONTROL = ('abort', 'close', 'start')
 
 
 def all_ops(w):
@@ -76,7 +84,8 @@ def all_ops(w):
 # (workload, timer budget, which fault placements, preemption bound, shards)
 PLAN_QUICK = [('W1', 0, 'all', 1, 1), ('W1', 1, 'all', 1, 2), ('W1', 2, 'none', 1, 4), ('W2', 0, 'all', 1, 1), ('W2', 1, 'all', 1, 2),
               ('W3', 0, 'all', 1, 4), ('W3', 1, 'none', 1, 12), ('W4', 0, 'all', 1, 4), ('W4', 1, 'none', 1, 12), ('W5', 0, 'none', 1, 24), ('W1', 0, 'none', 2, 8), ('W2', 0, 'none', 2, 12),
-              ('W6', 0, 'all', 1, 1), ('W6', 1, 'all', 1, 1), ('W6', 2, 'all', 1, 1), ('W7', 0, 'all', 1, 4), ('W7', 1, 'none', 1, 12)]
+              ('W6', 0, 'all', 1, 1), ('W6', 1, 'all', 1, 1), ('W6', 2, 'all', 1, 1), ('W7', 0, 'all', 1, 4), ('W7', 1, 'none', 1, 12),
+              ('W8', 0, 'all', 1, 2), ('W8', 1, 'none', 1, 4), ('W9', 0, 'none', 0, 1), ('W10', 0, 'none', 1, 1), ('W10', 1, 'none', 1, 2), ('W11', 0, 'none', 1, 2), ('W11', 1, 'none', 1, 4)]
 PLAN_THOROUGH = [('W1', 0, 'all', 2, 4), ('W1', 1, 'all', 2, 16), ('W1', 2, 'none', 2, 32), ('W2', 0, 'all', 2, 8), ('W2', 1, 'none', 2, 32),
                  ('W3', 0, 'all', 2, 64), ('W4', 0, 'all', 2, 64), ('W7', 0, 'all', 2, 64),
                  # three preemptions on the one-producer workloads, two on everything else incl. the three-producer one
@@ -84,7 +93,9 @@ PLAN_THOROUGH = [('W1', 0, 'all', 2, 4), ('W1', 1, 'all', 2, 16), ('W1', 2, 'non
                  ('W3', 1, 'none', 2, 512), ('W4', 1, 'none', 2, 512), ('W7', 1, 'none', 2, 512), ('W5', 0, 'none', 2, 1024),
                  ('W3', 0, 'all', 1, 2), ('W3', 1, 'all', 1, 6), ('W3', 2, 'none', 1, 12), ('W4', 0, 'all', 1, 2), ('W4', 1, 'all', 1, 6),
                  ('W4', 2, 'none', 1, 12), ('W5', 0, 'all', 1, 12), ('W5', 1, 'none', 1, 48), ('W6', 0, 'all', 2, 1), ('W6', 2, 'all', 2, 1),
-                 ('W7', 0, 'all', 1, 2), ('W7', 1, 'all', 1, 6), ('W7', 2, 'none', 1, 12), ('W2', 2, 'all', 1, 2)]
+                 ('W7', 0, 'all', 1, 2), ('W7', 1, 'all', 1, 6), ('W7', 2, 'none', 1, 12), ('W2', 2, 'all', 1, 2),
+                 ('W8', 0, 'all', 2, 16), ('W8', 1, 'all', 1, 4), ('W8', 1, 'none', 2, 64), ('W9', 0, 'none', 0, 1), ('W9', 1, 'none', 0, 1),
+                 ('W10', 0, 'all', 2, 4), ('W10', 2, 'none', 2, 16), ('W11', 0, 'all', 2, 16), ('W11', 2, 'none', 2, 64)]
 
 
 def plan(tier):
@@ -92,14 +103,15 @@ def plan(tier):
 
 
 def bounds(tier):
-    return {'plan(workload, timer budget, fault placements, preemption bound, shards)': plan(tier), 'workloads': {k: v['producers'] for k, v in WORKLOADS.items()},
+    return {'plan(workload, timer budget, fault placements, preemption bound, shards)': plan(tier),
+            'workloads': {k: [p if len(p) < 20 else '%d operations: %s ... %s' % (len(p), p[:2], p[-2:]) for p in v['producers']] + [{'closer': v['closer']}] for k, v in WORKLOADS.items()},
             'granularity': 'line events in the module + opcode events in every function touching the buffer or its lock + storage calls'}
 
 
 def gen_cases(tier, seed):
     for wn, K, fails, bound, shards in plan(tier):
         ops = all_ops(WORKLOADS[wn])
-        for fail in ([None] + list(range(len(ops))) if fails == 'all' else [None]):
+        for fail in ([None] + [i for i in range(len(ops)) if ops[i][1][0] not in CONTROL] if fails == 'all' else [None]):
             for sh in range(shards):
                 yield {'w': wn, 'fail': fail, 'K': K, 'bound': bound, 'shard': [sh, shards]}
 
@@ -118,7 +130,7 @@ def execute(case, prefix):
     ops = all_ops(w)
     fail_label = label_of(ops[case['fail']][1]) if case['fail'] is not None else None
     s = S.Sched(prefix, trace_files=('async_record_only_tape_cassette.py',),
-                opcode_attrs=('_recording_operation_buffer', '_lock', '_condition', '_cond'), timer_budget=case['K'], max_steps=6000)
+                opcode_attrs=('_recording_operation_buffer', '_lock', '_condition', '_cond'), timer_budget=case['K'], max_steps=w.get('max_steps', 6000))
     CUR[0] = s
     journal = []
     holder = {}
@@ -169,6 +181,10 @@ def execute(case, prefix):
                 recs[op[1]].set_data(op[2], ['v', op[2]])
             elif op[0] == 'meta':
                 recs[op[1]].add_metadata({op[2]: 1})
+            elif op[0] == 'abort':
+                c.abort_recording(recs[op[1]])
+            elif op[0] == 'close':
+                c.close()
             else:
                 c.save_recording(recs[op[1]])
         except BaseException as e:
@@ -188,6 +204,14 @@ def execute(case, prefix):
             s.point(('spawned',))
             s.block_until(lambda: all(t.done for t in threads), ('join-producers',))
         for op in w['closer']:
+            if op[0] == 'start':
+                try:
+                    c.start()
+                    out['restarted'] = True
+                except RuntimeError as e:   # refusing to start again is a legitimate answer: nothing accepted, nothing lost
+                    out['restart_refused'] = repr(e)
+                    break
+                continue
             run_op(c, recs, op)
         c.close()
         out['close_returned'] = True
@@ -199,21 +223,26 @@ def execute(case, prefix):
                'alive': [t.name for t in s.threads if not t.done], 'timer_fired': getattr(s, 'timer_fired', 0)}
 
 
-def expected(case):
+def expected(case, res=None):
     """Synchronous twin: the same requests applied directly, minus the failing one."""
     w = WORKLOADS[case['w']]
     ops = all_ops(w)
+    if res is not None and res['out'].get('restart_refused'):   # what follows a refused restart was never requested
+        ops = ops[:[i for i, (_, op) in enumerate(ops) if op[0] == 'start'][0]]
     fail = case['fail']
+    ops = [(who, op) if op[0] not in ('close', 'start') else (who, ('noop',)) for who, op in ops]
     data = {i: {} for i in range(w['recs'])}
     meta = {i: {} for i in range(w['recs'])}
     store = {}
     labels = []
     for i, (who, op) in enumerate(ops):
+        if op[0] in ('noop', 'abort'):
+            continue
         lab = {'set': lambda: 'set:%s:%s' % (op[1], op[2]), 'meta': lambda: 'meta:%s:%s' % (op[1], op[2]), 'save': lambda: 'save:%s' % op[1]}[op[0]]()
         labels.append((who, lab))
     # final store: every save that is not the failing op stores what had been applied (all writes of a recording precede its save by happens-before in every workload)
     for i, (who, op) in enumerate(ops):
-        if i == fail:
+        if i == fail or op[0] in ('noop', 'abort'):
             continue
         if op[0] == 'set':
             data[op[1]][op[2]] = repr(['v', op[2]])
@@ -227,7 +256,8 @@ def expected(case):
 
 def judge(case, res):
     viols = []
-    labels, exp_store = expected(case)
+    labels, exp_store = expected(case, res)
+    aborted = {op[1] for _, op in all_ops(WORKLOADS[case['w']]) if op[0] == 'abort'}
     if res['deadlock'] or res['horizon'] or not res['out']['close_returned'] or res['alive']:
         viols.append(viol('liveness:%s' % ('deadlock' if res['deadlock'] else 'step-horizon' if res['horizon'] else 'close-did-not-return' if not res['out']['close_returned'] else 'thread-left-running'),
                           'the run must terminate: close() returns and the flusher is finished', 'terminated', {k: res[k] for k in ('deadlock', 'horizon', 'alive')}))
@@ -237,7 +267,8 @@ def judge(case, res):
     applied = [j[0] for j in res['journal'] if j[0] != 'close']
     want = [lab for _, lab in labels]
     # (i) exactly once
-    missing = [x for x in want if applied.count(x) == 0]
+    # writes of a recording that is aborted instead of saved can never be observed: applying them or not is the code's choice
+    missing = [x for x in want if applied.count(x) == 0 and not (x.split(':')[0] in ('set', 'meta') and int(x.split(':')[1]) in aborted)]
     dup = sorted({x for x in applied if applied.count(x) > 1})
     if missing:
         viols.append(viol('lost-operation:%s' % missing[0].split(':')[0], 'requested before close but never applied to the wrapped storage', want, applied))
@@ -258,7 +289,7 @@ def judge(case, res):
         if late:
             viols.append(viol('order:after-join', 'an operation of a joined producer was applied after a later request of the closer', 'producers first', applied))
     close_pos = [i for i, j in enumerate(res['journal']) if j[0] == 'close']
-    if close_pos and any(i > close_pos[0] for i, j in enumerate(res['journal']) if j[0] != 'close'):
+    if close_pos and any(i > close_pos[-1 if res['out'].get('restarted') else 0] for i, j in enumerate(res['journal']) if j[0] != 'close'):
         viols.append(viol('wrapped-closed-before-drained', 'the wrapped cassette was closed before all pending operations were applied', 'close last', [j[0] for j in res['journal']]))
     if not close_pos:
         viols.append(viol('wrapped-never-closed', 'close() must close the wrapped cassette', 'close', [j[0] for j in res['journal']]))
